@@ -15,7 +15,7 @@ var explainMore = map[string]string{
 	"C14": " Also, for Format: the padding width subtracts the lengths of the very sign and buffer written, and zero padding follows the sign.",
 	"C15": " Also: adjusted exponents are compared only where the Sign() tests on every path (or at every call site of a helper) exclude zero operands.",
 	"C16": " Also: the inline word array is handled whole on amd64 and 386; no exported function returns a pointer into a BigInt's storage.",
-	"C17": " Also: Uint64()/Int64() of a BigInt is taken only behind a fit test of that value.",
+	"C17": " Also: Uint64()/Int64() of a BigInt is taken only behind a fit test of that value; no error return of Int64 is decided by the exponent alone (a zero of any exponent converts).",
 	"C18": " Also: no exported function hands out a pointer into an operand's internal storage.",
 	"C19": " Also: the inline array is handled whole on both word sizes and no narrowing conversion is unguarded.",
 }
@@ -94,7 +94,7 @@ func init() {
 		"Decides wrapper discipline for all 60+ methods: same-named math/big call on the receiver's view with parameters' views in order; every written view is written back with updateInner on every successful path and operands never are; zero is never negative on any fast path; fast paths read operands before writing (RAW) and never write them; the views written by the math/big routines that can leave a sign on a zero magnitude are normalised before the write-back.",
 		[]string{"value equality of the uint64 fast-path arithmetic with math/big; text and bit-length results"})
 	prop("C17", "Integer and float conversions and Modf are exact",
-		[]string{"C17.R1", "C17.R2", "C17.R3", "C13.R3", "C05.R1", "C06.R2", "C05.R5"},
+		[]string{"C17.R1", "C17.R2", "C17.R3", "C13.R3", "C05.R1", "C06.R2", "C05.R5", "C17.R4"},
 		"Decides: Int64 extracts the coefficient only behind the finite, integral and both range tests, each failing into an error, with bounds built from the int64 limits; Modf's outputs copy sign and form from the receiver, split by 10^(−exponent) with exponents 0 / receiver's, are alias-safe and completely assigned; the float path constants.",
 		[]string{"the ×10 loop and MinInt64 cast arithmetic in Int64; nearest-float claim (delegated to strconv)"})
 	prop("C18", "A Context and its operands can be shared by concurrent goroutines",
